@@ -34,8 +34,12 @@ def gen_invalid(r, cfg):
     ops.append("check")
     bad = []
     for _ in range(r.randrange(1, 5)):
-        k = r.randrange(9)
-        if k == 0:
+        k = r.randrange(11)
+        if k >= 9:
+            # a range that starts in front of the bitmap and ends behind it (encloses it)
+            j = r.choice([1, 1, 2, 3, 8])
+            bad.append("rawdealloc bm-%d %d" % (cfg.bsz * j, cfg.bsz * j + r.choice([4096, 8192, 12288, 16384]) + cfg.bsz * r.choice([1, 1, 2, 64])))
+        elif k == 0:
             bad.append("rawdealloc 0 %d" % (cfg.bsz * r.choice([1, 2, 100])))
         elif k == 1:
             d = r.choice([x for x in (0, 64, 1024, 2048, 4032) if x % cfg.bsz == 0])
